@@ -5,6 +5,7 @@ func init() {
 	for _, f := range []string{"f1", "f2", "f3", "f4", "f5", "f6", "f7", "f8", "f9", "transform"} {
 		specs = append(specs, LLSpec{File: "c09.c", Func: "harness_garbage_" + f, Params: map[string]int{"N": 7, "M": 3, "REUSE": 1}, ParamsT: map[string]int{"N": 9, "M": 5}, Reach: []string{"garbage/done"}})
 	}
+	specs = append(specs, LLSpec{File: "c09.c", Func: "harness_garbage_gif", Reach: []string{"garbage/done"}})
 	specs = append(specs, LLSpec{File: "c09.c", Func: "harness_garbage_ycck", Reach: []string{"garbage/done"}})
 	specs = append(specs, LLSpec{File: "c09.c", Func: "harness_garbage_adler32", Params: map[string]int{"N": 4}, ParamsT: map[string]int{"N": 8}, Reach: []string{"garbage/done"}})
 	register(&PropSpec{ID: "C09", Level: "model_checking",
